@@ -22,11 +22,14 @@ def add(*a, **k):
     CATALOGUE.append(V(*a, **k))
 
 
+# the body of the window wrapper, from `release = True` to the end of its finally clause (read from the tree)
+WRAPPER_BODY = (lambda w: w[w.index("            release = True\n"):w.index("            # return the right thing")])(
+    open(__import__("os").path.join(__import__("os").environ.get("VERIF_REPO", "/repo"), W)).read())
+
 # ------------------------------------------------------------------ C07
 add("m07a", ["C07"], (W, """            await self.queue.put(1)
             release = True
             try:
-                job._running = True                     # pylint: disable=w0212
 """, """            job._running = True                         # pylint: disable=w0212
             await self.queue.put(1)
             release = True
@@ -34,10 +37,10 @@ add("m07a", ["C07"], (W, """            await self.queue.put(1)
 """), rules=["R07.1"])
 add("m07c", ["C07"], (W, "asyncio.Queue(maxsize=jobs_window)", "asyncio.Queue(maxsize=jobs_window + 1)"),
     rules=["R07.2"])
-add("m07d", ["C07"], (P, "window = Window(self.jobs_window)", "window = Window(None)"), rules=["R07.3"])
+add("m07d", ["C07"], (P, "window = Window(self.jobs_window, self.jobs)", "window = Window(None)"), rules=["R07.3"])
 add("m07e", ["C07"], [(P, "        self._did_shutdown = False\n\n\n    # think",
                        "        self._did_shutdown = False\n        self._window = Window(jobs_window)\n\n\n    # think"),
-                      (P, "window = Window(self.jobs_window)", "window = self._window")], rules=["R07.3"])
+                      (P, "window = Window(self.jobs_window, self.jobs)", "window = self._window")], rules=["R07.3"])
 add("m07f", ["C07"], (W, "await self.queue.put(1)", "self.queue.put_nowait(1)"), rules=["R07.2"])
 add("m07h", ["C07"], (W, "asyncio.Queue(maxsize=jobs_window)", "asyncio.Queue()"), rules=["R07.2"])
 add("m01g", ["C07", "C01"], (P, "        jobs = BestSet(Sequence._flatten(jobs))\n        self.jobs.update(jobs)",
@@ -135,22 +138,7 @@ add("b06", ["C02", "C09", "C04"], (P, "if nb_jobs_done == nb_jobs_finite:", "if 
     expect='silent')
 
 # ------------------------------------------------------------------ C03 / C06 window
-add("m03a", ["C03", "C06"], (W, """            release = True
-            try:
-                job._running = True                     # pylint: disable=w0212
-                value = await job.co_run()
-            except Exception:
-                # when a critical job fails, the scheduler is about to abort;
-                # keep the slot, so that no job queued behind this one can
-                # start before the scheduler has cancelled it
-                release = not job.is_critical()
-                raise
-            finally:
-                # release slot in the queue, whatever the outcome of the job
-                # (it may have raised, or been cancelled)
-                if release:
-                    await self.queue.get()
-""", """            job._running = True                         # pylint: disable=w0212
+add("m03a", ["C03", "C06"], (W, WRAPPER_BODY, """            job._running = True                         # pylint: disable=w0212
             value = await job.co_run()
             await self.queue.get()
 """), rules=["R03.1", "R06.2"])
@@ -165,14 +153,14 @@ add("m03d", ["C03", "C01", "C14"], (J, """            and self._task._state == a
                                     """            and self._task._state == asyncio.futures._FINISHED \\
             and not self._task._exception"""), rules=["R03.2", "R01.3", "R14.1"])
 add("m03e", ["C03", "C06"], (W, """                release = not job.is_critical()
-                raise""", """                release = False
-                raise"""), rules=["R03.1", "R06.2"], note="slot kept for every failing job, critical or not")
+""", """                release = False
+"""), rules=["R03.1", "R06.2"], note="slot kept for every failing job, critical or not")
 add("m05j", ["C05"], (W, """                release = not job.is_critical()
-                raise""", """                release = True
-                raise"""), rules=["R05.6"], note="slot handed over even when a critical job fails")
+""", """                release = True
+"""), rules=["R05.6"], note="slot handed over even when a critical job fails")
 add("m05k", ["C05", "C03"], (W, """                release = not job.is_critical()
-                raise""", """                release = job.is_critical()
-                raise"""), rules=["R05.6", "R03.1"], note="polarity slip")
+""", """                release = job.is_critical()
+"""), rules=["R05.6", "R03.1"], note="polarity slip")
 add("m07g", ["C07"], (W, """            await self.queue.put(1)
             release = True
             try:
@@ -180,22 +168,7 @@ add("m07g", ["C07"], (W, """            await self.queue.put(1)
             try:
                 await self.queue.put(1)
 """), rules=["R07.1"])
-add("m07b", ["C07"], (W, """            release = True
-            try:
-                job._running = True                     # pylint: disable=w0212
-                value = await job.co_run()
-            except Exception:
-                # when a critical job fails, the scheduler is about to abort;
-                # keep the slot, so that no job queued behind this one can
-                # start before the scheduler has cancelled it
-                release = not job.is_critical()
-                raise
-            finally:
-                # release slot in the queue, whatever the outcome of the job
-                # (it may have raised, or been cancelled)
-                if release:
-                    await self.queue.get()
-""", """            await self.queue.get()
+add("m07b", ["C07"], (W, WRAPPER_BODY, """            await self.queue.get()
             job._running = True                         # pylint: disable=w0212
             value = await job.co_run()
 """), rules=["R07.1"])
@@ -482,8 +455,8 @@ add("m04d", ["C04", "C10"], (S, """        if self.failed_time_out():
         if self.failed_time_out():"""), rules=["R04.3", "R10.3"])
 add("m04e", ["C04", "C10"], (S, "                    raise exc\n", "                    raise type(exc)(*exc.args)\n"),
     rules=["R04.3", "R10.3"])
-add("m04f", ["C04", "C14", "C10"], (W, """                release = not job.is_critical()
-                raise""", """                release = not job.is_critical()
+add("m04f", ["C04", "C14", "C10"], (W, """                    self.closed = True
+                raise""", """                    self.closed = True
                 raise RuntimeError("job failed")"""), rules=["R04.4", "R14.3", "R10.3i"])
 add("m04g", ["C04"], (P, """        if self._failed_timeout is not False:
             return "TIMED OUT after {}s".format(self._failed_timeout)
@@ -1095,7 +1068,7 @@ add("m01t", ["C01"], (J, """        return self._task is not None \\
 add("m20r", ["C20"], (P, """            id_format = "{{:0{w}d}}".format(w=width)""", """            id_format = "{{:{w}d}}".format(w=width)"""), rules=["R20.7"], note="seed C20-R3B")
 add("m20s", ["C20"], (P, """            id_format = "{{:0{w}d}}".format(w=width)""", """            id_format = "# {{:0{w}d}}".format(w=width)"""), rules=["R20.7"])
 add("b20r", ["C20"], (P, """            id_format = "{{:0{w}d}}".format(w=width)""", """            id_format = "{{:0>{w}d}}".format(w=width)"""), expect='silent')
-add("m03w", ["C03", "C07", "C10"], [(P, "        window = Window(self.jobs_window)", "        window = getattr(self, '_outer_window', None) or Window(self.jobs_window)"),
+add("m03w", ["C03", "C07", "C10"], [(P, "        window = Window(self.jobs_window, self.jobs)", "        window = getattr(self, '_outer_window', None) or Window(self.jobs_window, self.jobs)"),
                              (P, """        #
         # this is where we call co_run()
         #""", """        if isinstance(job, PureScheduler) and not job.jobs_window:
@@ -1197,15 +1170,15 @@ add("m04v", ["C04"], [(P, """        # empty schedulers are fine too
 
 """, ""), (P, """        # create a Window no matter what; it will know what to do
         # also if jobs_window is None
-        window = Window(self.jobs_window)
+        window = Window(self.jobs_window, self.jobs)
 """, """        # empty schedulers are fine too
         if not self.jobs:
             return True
         # create a Window no matter what; it will know what to do
         # also if jobs_window is None
-        window = Window(self.jobs_window)
+        window = Window(self.jobs_window, self.jobs)
 """)], rules=["R04.1"], note="seed C04-R4A")
-add("m11v", ["C11"], (P, "        window = Window(self.jobs_window)\n", "        window = Window(self.jobs_window)\n        if self.verbose:\n            asyncio.create_task(window.monitor())\n"),
+add("m11v", ["C11"], (P, "        window = Window(self.jobs_window, self.jobs)\n", "        window = Window(self.jobs_window, self.jobs)\n        if self.verbose:\n            asyncio.create_task(window.monitor())\n"),
     rules=["R11.1", "R11.2"], note="seed C11-R4C: a task no exit path cancels or awaits")
 add("m14v", ["C14", "C11", "C10"], (S, """                [job._task for job in self.jobs if job._task is not None])
             raise""", """                [job._task for job in self.jobs if job._task is not None])
@@ -1278,3 +1251,50 @@ add("b19z2", ["C19"], (J, _F15, """                if remove:
                     for req in requirement:
                         self.requires(req, remove=False)
 """), expect='silent', note="adding what is already there does not change the set")
+
+# ------------------------------------------------------------------ F16 / F17: the window closes when the run is over
+_GATE = """                if self.closed:
+                    # the run was over before we could obtain a slot, the
+                    # scheduler is about to cancel us: wait for that
+                    await asyncio.get_running_loop().create_future()
+"""
+_COUNT = """                if not job.forever:
+                    self.nb_finite -= 1
+                    if self.nb_finite == 0:
+                        self.closed = True
+"""
+add("mF16a", ["C05"], (W, """                if not release:
+                    self.closed = True
+                raise""", """                raise"""), rules=["R05.11"], note="F16 reverted: the failure of a critical job does not close the window")
+add("mF16b", ["C05", "C09"], [(W, _GATE, ""), (W, """            await self.queue.put(1)
+            release = True
+""", """            if self.closed:
+                await asyncio.get_running_loop().create_future()
+            await self.queue.put(1)
+            release = True
+""")], rules=["R05.11", "R09.8"], note="the window is looked at before the wait for a slot, not after")
+add("mF16c", ["C05", "C09"], (W, _GATE, ""), rules=["R05.11", "R09.8"], note="no gate at all")
+add("mF17a", ["C09"], (W, _COUNT, ""), rules=["R09.8"], note="F17 reverted: completions are not counted")
+add("mF17b", ["C09"], (W, _COUNT, """                self.nb_finite -= 1
+                if self.nb_finite == 0:
+                    self.closed = True
+"""), rules=["R09.8"], note="forever jobs that end are counted too: the window closes early")
+add("mF17c", ["C09"], (P, "window = Window(self.jobs_window, self.jobs)", "window = Window(self.jobs_window)"), rules=["R09.8"],
+    note="the window is not told which jobs it has to count")
+add("mF17d", ["C09"], (W, "                    if self.nb_finite == 0:\n", "                    if self.nb_finite < 0:\n"), rules=["R09.8"])
+add("mF17e", ["C09"], (W, "        self.nb_finite = len([job for job in jobs if not job.forever])", "        self.nb_finite = len(jobs)"),
+    rules=["R09.8"], note="counts the forever jobs as well: never reaches zero")
+add("bF16a", ["C05", "C09", "C03", "C12"], (W, "                    await asyncio.get_running_loop().create_future()", "                    await asyncio.Future()"),
+    expect='silent')
+add("bF17a", ["C09", "C05"], [(W, "        self.nb_finite = len([job for job in jobs if not job.forever])",
+                              "        self.nb_finite = sum(1 for job in jobs if not job.forever)"),
+                             (W, "                    if self.nb_finite == 0:\n", "                    if self.nb_finite <= 0:\n")], expect='silent')
+add("bF17b", ["C09", "C05"], [(W, _COUNT, """                self._job_over(job)
+"""), (W, "    def run_job(self, job):", """    def _job_over(self, job):
+        if job.forever:
+            return
+        self.nb_finite -= 1
+        if not self.nb_finite:
+            self.closed = True
+
+    def run_job(self, job):""")], expect='silent')
